@@ -133,6 +133,12 @@ def fpy_finite(ctx, v):
         return False
 
 
+def fpy_rne(v, digits):
+    """v rounded to nearest-even at `digits` significant binary digits, unbounded exponent"""
+    import fpy2 as fp
+    return fp.MPFloatContext(int(digits), fp.RM.RNE).round(Fraction(v)).as_rational()
+
+
 def fpy_operand(m, e):
     return Fraction(m) * Fraction(2) ** e
 
